@@ -338,14 +338,18 @@ def decodeW (t : Tables) (w : Wrapper) (inst : Inst) (data : List Int) : DecodeO
     let env : Env := { params := fun _ => 0, fields := fieldEnv t c,
                        last := match inst.last with | some l => fieldEnv t l | none => fun _ => none }
     let (r, effs) := runTree env lastEq tree
-    let (inst', eff') := applyEffs c effs b.inst b.effects
+    -- the object the wrapper returns / stores is the base decoder's code object with its final `_data`
+    let c' : CodeV := match r with
+      | .ok (.code fs) =>
+        { c with fields := t.params.filterMap (fun prm => (fs.find? (fun p => p.1 == prm.1)).map (fun p => (prm.1, p.2.v.toNat))) }
+      | _ => c
+    let (inst', eff') := applyEffs c' effs b.inst b.effects
     match r with
     | .error e => { result := .error e, inst := inst', effects := eff' }
     | .ok .last =>
       match inst.last with
       | some l => { result := .ok l, inst := inst', effects := eff', isLast := true }
       | none => { result := .error .typeError, inst := inst', effects := eff' }
-    | .ok (.code fs) =>
-      { result := .ok { c with fields := fs.map (fun p => (p.1, p.2.v.toNat)) }, inst := inst', effects := eff', isLast := b.isLast }
+    | .ok (.code _) => { result := .ok c', inst := inst', effects := eff', isLast := b.isLast }
 
 end IRModel.Wrap
